@@ -123,10 +123,10 @@ def harmless(case, impl, model):
 
 def run(ctx):
     ctx.equal = equal
-    obl = C.coq_obligations(ctx.pid, ["Extract/ExtractC07.vo"])
+    obl = C.coq_obligations(ctx.pid, ["Extract/ExtractC07.vo"], more_props=["C07Uct"])
     extra = {}
     if ctx.thorough:
-        extra.update(C.coqchk(ctx.pid))
+        extra.update(C.coqchk(ctx.pid, more_props=["C07Uct"]))
     corr = C.correspondence(ctx, "c07", nontrivial)
     viol, stats = scan(ctx)
     extra["c07_stats"] = stats
